@@ -393,7 +393,11 @@ pub fn run_case(p: &Program, cfg: &Config, opts: &CaseOpts, rng: &mut Rng) -> Ca
         }
     }
 
-    if let Some((it, h)) = &c.first_unreported_race {
+    // (C04 is a statement about the model run as a whole: "fails iff SOME execution races". An
+    // execution whose race went unreported is a violation only if no other execution made the
+    // model fail with a race report; a run stopped by the iteration cap is inconclusive.)
+    let race_reported_elsewhere = !matches!(run.status, LoomStatus::Completed);
+    if let (Some((it, h)), false) = (&c.first_unreported_race, race_reported_elsewhere) {
         rep.violations.push(Violation {
             kind: "missed_report".into(),
             detail: format!("iteration {} performs two conflicting accesses that are unordered even by the largest happens-before (all envelope edges included), but loom did not report a data race in it", it),
